@@ -280,6 +280,20 @@ fn build_case(rng: &mut Rng) -> Case {
             opaque.insert(i);
         }
     }
+    // every declaration of one (leaf) namespace blocklisted through a single item pattern: with namespaces as modules
+    // the module then holds nothing but what the user supplies
+    if mode != 1 && cxx && !p.namespaces.is_empty() && rng.chance(1, 4) {
+        let leafs: Vec<usize> = (0..p.namespaces.len()).filter(|&i| !p.namespaces.iter().any(|o| o.starts_with(&format!("{}::", p.namespaces[i])))).collect();
+        if !leafs.is_empty() {
+            let ns = *rng.pick(&leafs);
+            if p.decls.iter().any(|d| d.ns == Some(ns) && d.file == 0) {
+                block.items.push(format!("{}::.*", p.namespaces[ns]));
+                for (j, dj) in p.decls.iter().enumerate() {
+                    if dj.ns == Some(ns) { blocked.insert(j); opaque.remove(&j); }
+                }
+            }
+        }
+    }
     // top-level alternation in one pattern (`a|b` must mean "the whole name is a or the whole name is b": the
     // generated names contain proper prefixes of each other — S1, S10, S12)
     if block.types.len() >= 2 && rng.chance(1, 2) { let b = block.types.pop().unwrap(); let a = block.types.pop().unwrap(); block.types.push(format!("{a}|{b}")); }
@@ -729,23 +743,30 @@ fn oracles(
             // … reached through an allow-listed type reference / alias item (the item the analysis asks is the
             // reference, which is opaque and not blocklisted); a container naming the blocklisted item directly
             // is answered by the blocklist test first and is NOT in the region
-            let both_ids: BTreeSet<u64> = run.dump.items.iter().filter(|it| it.kind == "type" && it.blocklisted && it.opaque && it.type_kind.as_deref() == Some("Comp")).map(|it| it.id).collect();
-            let reaches = |start: &am::DumpItem| -> Option<u64> {
-                let mut cur = start;
-                for _ in 0..32 {
-                    if !matches!(cur.type_kind.as_deref(), Some("ResolvedTypeRef") | Some("Alias") | Some("TemplateAlias")) { return None; }
-                    let inner = cur.type_rec.as_ref().and_then(|r| r.num("inner"))?;
-                    if both_ids.contains(&inner) { return Some(inner); }
-                    cur = run.dump.item(inner)?;
-                }
-                None
-            };
-            let via: BTreeSet<u64> = run.dump.items.iter().filter(|it| it.kind == "type" && it.allowlisted && !it.blocklisted).filter_map(|it| reaches(it)).collect();
-            let both: Vec<&str> = run.dump.items.iter().filter(|it| via.contains(&it.id)).map(|it| it.name.as_str()).collect();
-            let head = if both.is_empty() { String::new() } else { format!("// blocklisted-and-opaque: {}\n", both.join(", ")) };
+            let head = both_head(run);
             rustc_queue.push((format!("{head}{raw}\n{}", run.bindings), full.bindings.clone(), case_json(c)));
         }
     }
+}
+
+/// region head of known finding `derive_through_blocklisted_opaque`: names of the records that are both blocklisted
+/// and opaque and are reached through an allow-listed type reference / alias item
+fn both_head(run: &RunOut) -> String {
+    let both_ids: BTreeSet<u64> = run.dump.items.iter().filter(|it| it.kind == "type" && it.blocklisted && it.opaque && it.type_kind.as_deref() == Some("Comp")).map(|it| it.id).collect();
+    let reaches = |start: &am::DumpItem| -> Option<u64> {
+        let mut cur = start;
+        for _ in 0..32 {
+            if !matches!(cur.type_kind.as_deref(), Some("ResolvedTypeRef") | Some("Alias") | Some("TemplateAlias")) { return None; }
+            let inner = cur.type_rec.as_ref().and_then(|r| r.num("inner"))?;
+            if both_ids.contains(&inner) { return Some(inner); }
+            cur = run.dump.item(inner)?;
+        }
+        None
+    };
+    let via: BTreeSet<u64> = run.dump.items.iter().filter(|it| it.kind == "type" && it.allowlisted && !it.blocklisted).filter_map(|it| reaches(it)).collect();
+    let both: Vec<&str> = run.dump.items.iter().filter(|it| via.contains(&it.id)).map(|it| it.name.as_str()).collect();
+    let head = if both.is_empty() { String::new() } else { format!("// blocklisted-and-opaque: {}\n", both.join(", ")) };
+    head
 }
 
 fn compile_batch(scratch: &Scratch, tag: &str, srcs: &[&str]) -> Result<(), String> {
@@ -1049,7 +1070,7 @@ fn main() {
                     if ok && extra.len() > c.flags.len() {
                         if let Ok(run2) = run_bindgen(&scratch, &c, &extra, false) {
                             st.bump("module-raw-line-stub-runs");
-                            rustc_queue.push((run2.bindings.clone(), full.bindings.clone(), case_json(&c)));
+                            rustc_queue.push((format!("{}{}", both_head(&run), run2.bindings), full.bindings.clone(), case_json(&c)));
                         }
                     }
                 }
